@@ -73,12 +73,12 @@ int main(int argc, char **argv)
 	    fprintf(f, ",\"out\":["); for (j = 0; j < nb; ++j) { fprintf(f, "%s[", j ? "," : ""); for (i = 0; i < rr; ++i) { if (i) fprintf(f, ","); pnum(f, C[i + j * ldc]); } fprintf(f, "]"); } fprintf(f, "]}\n");
 	    SUPERLU_FREE(B); SUPERLU_FREE(C); SUPERLU_FREE(C0); Destroy_CompCol_Matrix(&S.A);
 	} else if (kind == 2) {   /* ---- trsv on the factors of an integer matrix A = L0 U0 */
-	    int nn = 2 + rng_int(&R, 3), k, ok = 1; lc *L0 = lc_zeros(nn * nn), *U0 = lc_zeros(nn * nn), *Ld = lc_zeros(nn * nn), *Ud = lc_zeros(nn * nn);
+	    int nn = 2 + rng_int(&R, 8), k, ok = 1, msup = 2 + (int) rng_int(&R, 2);   /* up to 9 columns: one-column supernodes before wider ones */ lc *L0 = lc_zeros(nn * nn), *U0 = lc_zeros(nn * nn), *Ld = lc_zeros(nn * nn), *Ud = lc_zeros(nn * nn);
 	    char *pat = (char *) calloc(nn * nn, 1); mat_t M; SuperMatrix A, AC, L, U; superlumt_options_t o; Gstat_t G; int_t *pc = intMalloc(nn), *pr = intMalloc(nn), info = 0;
 	    SCALAR *x = scalarMalloc(nn), *b = scalarMalloc(nn); const char *ul = rng_int(&R, 2) ? "L" : "U"; rng_t R2 = R;
 	    for (i = 0; i < nn; ++i) for (j = 0; j < nn; ++j) {
 		if (i == j) { L0[i + j * nn] = 1; U0[i + j * nn] = rng_int(&R, 2) ? 1 : -1; }
-		else if (i > j) L0[i + j * nn] = rng_int(&R, 2) ? 1 : -1;                    /* full lower triangle: the etree is a chain */
+		else if (i > j) L0[i + j * nn] = (i == j + 1 || rng_int(&R, 4)) ? (rng_int(&R, 2) ? 1 : -1) : 0;      /* full sub-diagonal: the etree is a chain; some zeros break supernodes */
 		else U0[i + j * nn] = (long double) ival(&R, 1) + (IS_COMPLEX ? 1.0iL * (long double) ival(&R, 1) : 0);
 	    }
 	    for (i = 0; i < nn * nn; ++i) pat[i] = 1;
@@ -86,7 +86,7 @@ int main(int argc, char **argv)
 	    for (j = 0; j < nn; ++j) for (i = 0; i < nn; ++i) { lc a = 0; for (k = 0; k < nn; ++k) a += L0[i + k * nn] * U0[k + j * nn]; M.val[i + j * nn] = from_lc(a); }
 	    G(Create_CompCol_Matrix)(&A, nn, nn, M.nnz, M.val, M.rowind, M.colptr, SLU_NC, SLU_DT, SLU_GE);
 	    for (i = 0; i < nn; ++i) pc[i] = i;
-	    vrt_ienv[1] = 2; vrt_ienv[2] = 1; vrt_ienv[3] = 2;
+	    vrt_ienv[1] = 2; vrt_ienv[2] = 1; vrt_ienv[3] = msup;
 	    StatAlloc(nn, 1, 2, 1, &G); StatInit(nn, 1, &G);
 	    PG(gstrf_init)(1, DOFACT, NOTRANS, NO, 2, 1, 0.0, NO, 0.0, pc, pr, NULL, 0, &A, &AC, &o, &G);
 	    PG(gstrf)(&o, &AC, pr, &L, &U, &G, &info);
